@@ -253,6 +253,11 @@ func (group *Group) broadcastByRtmpMsg(msg base.RtmpMsg) {
 		group.customizeHookSessionContext.OnMsg(msg)
 	}
 
+	// metadata and sequence headers are no frames: a sub session that is still waiting for a key frame
+	// must receive them at once and in publish order as well. Otherwise a sequence header that changes
+	// during the wait is lost and the key frame that ends the wait, and every frame after it, cannot be decoded.
+	isHeaderMsg := msg.Header.MsgTypeId == base.RtmpTypeIdMetadata || msg.IsVideoKeySeqHeader() || msg.IsAacSeqHeader()
+
 	// # 广播。遍历所有 rtmp sub session，转发数据
 	// ## 如果是新的 sub session，发送已缓存的信息
 	for session := range group.rtmpSubSessionSet {
@@ -302,6 +307,10 @@ func (group *Group) broadcastByRtmpMsg(msg base.RtmpMsg) {
 				group.rtmpMergeWriter.Flush()
 			}
 			session.ShouldWaitVideoKeyFrame = false
+		} else if session.ShouldWaitVideoKeyFrame && isHeaderMsg {
+			// still waiting: write2RtmpSubSessions and the rtmp merge writer skip this sub session,
+			// so metadata / sequence headers are written to it directly; it keeps waiting
+			_ = session.Write(lazyRtmpChunkDivider.GetEnsureWithoutSdf())
 		}
 	} // for loop iterate rtmpSubSessionSet
 
@@ -375,6 +384,9 @@ func (group *Group) broadcastByRtmpMsg(msg base.RtmpMsg) {
 			if msg.IsVideoKeyNalu() {
 				session.Write(lazyRtmpMsg2FlvTag.GetEnsureWithoutSdf())
 				session.ShouldWaitVideoKeyFrame = false
+			} else if isHeaderMsg {
+				// metadata / sequence headers are sent while waiting, too; it keeps waiting
+				session.Write(lazyRtmpMsg2FlvTag.GetEnsureWithoutSdf())
 			}
 		} else {
 			session.Write(lazyRtmpMsg2FlvTag.GetEnsureWithoutSdf())
